@@ -179,7 +179,7 @@ Proof.
   - assert (Hcs : forall bid, (forall w, ts_writer (get_ts s (t_id t)) = Some w -> bid = b_id w) ->
                     (ts_writer (get_ts s (t_id t)) = None -> bid = a_next (s_alloc s)) -> CS (get_ts s (t_id t)) bid (a_next (s_alloc s))).
     { intros bid _ _. apply (CS_hydrated_world c). apply Hti. }
-    destruct (proj2 (append_Nst false c s t e Hn Hcs)) as (_ & _ & K3).
+    destruct (proj2 (append_Nst false c s t e Hn Hcs)) as (_ & _ & K3 & _).
     eapply (PL_write c s _ g _ B Bb _ _ (t_id t) Hc Hrel Hrel' Hpl).
     + apply append_grow_nc; [exact Hc|split; assumption].
     + exact K3.
@@ -188,7 +188,7 @@ Proof.
   - assert (Hcs : forall bid, (forall w, ts_writer (get_ts s (t_id t)) = Some w -> bid = b_id w) ->
                     (ts_writer (get_ts s (t_id t)) = None -> bid = a_next (s_alloc s)) -> CS (get_ts s (t_id t)) bid (a_next (s_alloc s))).
     { intros bid _ _. apply (CS_hydrated_world c). apply Hti. }
-    destruct (proj2 (batch_Nst false c be s t es Hn Hcs)) as (_ & _ & K3).
+    destruct (proj2 (batch_Nst false c be s t es Hn Hcs)) as (_ & _ & K3 & _).
     eapply (PL_write c s _ g _ B Bb _ _ (t_id t) Hc Hrel Hrel' Hpl).
     + apply batch_grow_nc; [exact Hc|split; assumption].
     + exact K3.
